@@ -63,6 +63,9 @@
 
 #include "ares_inet_net_pton.h"
 #include "event/ares_event.h"
+#ifdef CARES_VERIF
+#  include "ares_verif.h"
+#endif
 
 int ares_init(ares_channel_t **channelptr)
 {
@@ -425,15 +428,33 @@ ares_status_t ares_reinit(ares_channel_t *channel)
   if (ares_threadsafety()) {
     /* clean up the prior reinit process's thread.  We know the thread isn't
      * running since reinit_pending was false */
+#ifdef CARES_VERIF
+    if (ares_verif_sync_cb != NULL) {
+      ares_verif_sync_cb(ARES_VERIF_SYNC_SHARED_READ, &channel->reinit_thread,
+                         channel->reinit_thread);
+    }
+#endif
     if (channel->reinit_thread != NULL) {
       void *rv;
       ares_thread_join(channel->reinit_thread, &rv);
       channel->reinit_thread = NULL;
+#ifdef CARES_VERIF
+      if (ares_verif_sync_cb != NULL) {
+        ares_verif_sync_cb(ARES_VERIF_SYNC_SHARED_WRITE,
+                           &channel->reinit_thread, NULL);
+      }
+#endif
     }
 
     /* Spawn a new thread */
     status =
       ares_thread_create(&channel->reinit_thread, ares_reinit_thread, channel);
+#ifdef CARES_VERIF
+    if (ares_verif_sync_cb != NULL && status == ARES_SUCCESS) {
+      ares_verif_sync_cb(ARES_VERIF_SYNC_SHARED_WRITE, &channel->reinit_thread,
+                         channel->reinit_thread);
+    }
+#endif
     if (status != ARES_SUCCESS) {
       /* LCOV_EXCL_START: UntestablePath */
       ares_channel_lock(channel);
